@@ -25,6 +25,7 @@ package backoff
 import (
 	"context"
 	"errors"
+	"math"
 	rand "math/rand/v2"
 	"time"
 
@@ -70,6 +71,11 @@ func (bc Exponential) Backoff(retries int) time.Duration {
 	backoff *= 1 + bc.Config.Jitter*(rand.Float64()*2-1)
 	if backoff < 0 {
 		return 0
+	}
+	if backoff >= math.MaxInt64 {
+		// Saturate: converting a float64 at or above 2^63 to int64 wraps to a
+		// negative duration.
+		return math.MaxInt64
 	}
 	return time.Duration(backoff)
 }
